@@ -788,11 +788,11 @@ func main() {
 	}
 	for _, k := range []string{"list", "dict", "set"} {
 		if byKind[k] == 0 {
-			common.Inconclusive("property=C17 vacuous run: no %s history", k)
+			common.Vacuous("property=C17 vacuous run: no %s history", k)
 		}
 	}
 	if simHist == 0 {
-		common.Inconclusive("property=C17 vacuous run: no simulated history")
+		common.Vacuous("property=C17 vacuous run: no simulated history")
 	}
 	rep.Evaluations = steps
 	rep.Distinct = runs
